@@ -51,6 +51,15 @@ def _one(task):
                              sanction_removed_regs=opts.get('sanction', False))
         except Malformed as e:
             return dict(task=task, status='insane', why='result not translatable: %s' % e)
+        if res.get('status') == 'proved' and not res.get('inductive') and not res.get('free_result_regs') \
+                and not opts.get('_deepened'):
+            # next states do not correspond although the outputs agree for k cycles: a difference in state
+            # may need more cycles to reach an Output (chained memories / registers) - look deeper once
+            r2 = _one((design, passname, k + 3, dict(opts, _deepened=True)))
+            if r2.get('status') in ('refuted', 'proved'):
+                r2['task'] = task
+                r2['deepened_to'] = k + 3
+                return r2
         res['task'] = task
         res['post'] = post
         res['ops'] = structural_info(B)
